@@ -9,6 +9,9 @@
   api      the real pipeflow with forced verdict patterns over call sequences on one net object:
            after a failure net.converged is False and no result table holds a number.
   guard    solve_temperature NaN guard / check_infeed_number.
+  layout   the real stage functions (solve_hydraulics / solve_temperature / solve_bidirectional) on real nets: the list of
+           (new, old) pairs they hand to the driver matches solver_vars / tols / pit_names, and every updated unknown
+           is among the pairs compared with a tolerance (the assumption under which the driver part is proved).
 """
 import importlib
 import itertools
@@ -41,8 +44,10 @@ META = {
 }
 
 pf = importlib.import_module("pandapipes.pipeflow")
-SOLVER_VARS = {2: ['Tout', 'T'], 3: ['mdot', 'p', 'mdotslack'], 4: ['mdot', 'p', 'TOUT', 'T']}
-PITS = {2: ['branch', 'node'], 3: ['branch', 'node', 'node'], 4: ['branch', 'node', 'branch', 'node']}
+SOLVER_VARS = {2: ['Tout', 'T'], 3: ['mdot', 'p', 'mdotslack'], 4: ['mdot', 'p', 'TOUT', 'T'],
+               5: ['mdot', 'p', 'mdotslack', 'TOUT', 'T']}
+PITS = {2: ['branch', 'node'], 3: ['branch', 'node', 'node'], 4: ['branch', 'node', 'branch', 'node'],
+        5: ['branch', 'node', 'node', 'branch', 'node']}
 
 
 def _mini_net(alpha, n=2):
@@ -239,7 +244,12 @@ def driver_worker(job):
                 old = np.array([real("oldv_%s_%d_%d" % (v, k, i)) for i in range(2)], dtype=object)
                 res += [new, old]
             filt = [None] * nv
-            return res, np.array([real("resid_%d_%d" % (k, i)) for i in range(2)], dtype=object), filt
+            resid = np.array([real("resid_%d_%d" % (k, i)) for i in range(2)], dtype=object)
+            if job.get("resid_nan"):
+                # an unsolvable stage signals itself by a NaN residual entry next to ordinary ones (bidirectional:
+                # hydraulic residual concatenated with the NaN of the thermal guard)
+                resid[1] = np.nan
+            return res, resid, filt
         tols = [real("tol_%s" % v) for v in svars]
         nr(net, funct, "hydraulics", svars, tols, pits, "max_iter_x")
         holder.update(net=net, calls=len(calls))
@@ -262,8 +272,10 @@ def driver_worker(job):
                 obs.append(("converged => last change of %s within tolerance" % v,
                             z3.And([d <= z3.Real("tol_%s" % v) for d in dv])))
             rs_ = [z3.If(z3.Real("resid_%d_%d" % (k, i)) >= 0, z3.Real("resid_%d_%d" % (k, i)), -z3.Real("resid_%d_%d" % (k, i)))
-                   for i in range(2)]
+                   for i in range(1 if job.get("resid_nan") else 2)]
             obs.append(("converged => last residual within tolerance", z3.And([r <= z3.Real("tol_res") for r in rs_])))
+            if job.get("resid_nan"):
+                obs.append(("converged => no NaN in the last residual", z3.BoolVal(False)))
         else:
             obs.append(("not converged => budget used up", z3.BoolVal(ncalls == max_iter)))
         for lab, goal in obs:
@@ -271,6 +283,7 @@ def driver_worker(job):
             if r == 'sat':
                 viol.append({"fingerprint": "C05/driver/%s" % lab.split(" ")[0], "detail": {"job": job["name"], "obligation": lab},
                              "replay": {"kind": "driver", "nvars": nv, "method": method, "max_iter": max_iter, "label": lab,
+                                        "resid_nan": bool(job.get("resid_nan")),
                                         "values": {k_: v_ for k_, v_ in (m or {}).items() if isinstance(v_, float)}}})
             elif r == 'unknown':
                 job.setdefault("_inconclusive", []).append(lab)
@@ -300,7 +313,10 @@ def replay_driver(rs):
         for v in svars:
             res += [np.array([g("new_%s_%d_%d" % (v, k, i), 1.0) for i in range(2)]),
                     np.array([g("oldv_%s_%d_%d" % (v, k, i), 1.0) for i in range(2)])]
-        return res, np.array([g("resid_%d_%d" % (k, i), 0.0) for i in range(2)]), [None] * nv
+        resid = np.array([g("resid_%d_%d" % (k, i), 0.0) for i in range(2)])
+        if rs.get("resid_nan"):
+            resid[1] = np.nan
+        return res, resid, [None] * nv
     tols = [g("tol_%s" % v, 1e-3) for v in svars]
     pfm.newton_raphson(net, funct, "hydraulics", svars, tols, pits, "max_iter_x")
     bad = []
@@ -315,6 +331,8 @@ def replay_driver(rs):
         r = max(abs(g("resid_%d_%d" % (k, i), 0.0)) for i in range(2))
         if not r <= net["_options"]["tol_res"]:
             bad.append("converged with residual %r" % r)
+        if rs.get("resid_nan"):
+            bad.append("converged although the last residual holds a NaN")
     elif len(calls) != max_iter:
         bad.append("gave up after %d of %d iterations" % (len(calls), max_iter))
     return bool(bad), {"bad": bad}
@@ -337,7 +355,10 @@ def api_worker(job):
         net, names = nets.build(spec, nets.sym_valuer(), fluid=stubs.make_sym_fluid(is_gas))
         out = []
         for ok in seq:
-            H.CTX.force_fail = not ok
+            # True: verdict converged; False: verdict not converged; "C": supply cut, the run fails in the connectivity
+            # stage before any Newton loop
+            H.CTX.force_fail = ok is False
+            cut = _cut_supply(net) if ok == "C" else None
             raised = None
             try:
                 pp.pipeflow(net, mode=mode, use_numba=False)
@@ -345,6 +366,7 @@ def api_worker(job):
                 raised = e
             finally:
                 H.CTX.force_fail = False
+                _restore_supply(net, cut)
             numbers = 0
             for key in net.keys():
                 if isinstance(key, str) and key.startswith("res_") and hasattr(net[key], "columns"):
@@ -361,7 +383,7 @@ def api_worker(job):
     n_ev = 0
     for i, (ok, raised, conv, numbers) in enumerate(p.value):
         n_ev += 3
-        if ok:
+        if ok is True:
             if raised or not conv or numbers == 0:
                 bad("call %d (verdict converged): raised=%s converged=%s numbers=%d" % (i, raised, conv, numbers))
         else:
@@ -376,6 +398,23 @@ def api_worker(job):
     return finish_worker(job, ex, viol, evaluated=n_ev)
 
 
+FEEDERS = ("ext_grid", "circ_pump_pressure", "circ_pump_mass")
+
+
+def _cut_supply(net):
+    saved = {}
+    for t in FEEDERS:
+        if t in net and len(net[t]):
+            saved[t] = net[t]["in_service"].copy()
+            net[t]["in_service"] = False
+    return saved
+
+
+def _restore_supply(net, saved):
+    for t, col in (saved or {}).items():
+        net[t]["in_service"] = col
+
+
 def replay_api(rs):
     """real code: failure is provoked with an iteration budget of 1 and unreachable tolerances"""
     from svx.common import concrete_pipeflow
@@ -383,15 +422,19 @@ def replay_api(rs):
     badl = []
     for i, ok in enumerate(rs["seq"]):
         kw = dict(mode=rs["pfmode"], use_numba=False)
-        if not ok:
+        cut = _cut_supply(net) if ok == "C" else None
+        if ok is False:
             kw.update(max_iter_hyd=1, max_iter_therm=1, max_iter_bidirect=1, tol_p=1e-15, tol_m=1e-15, tol_T=1e-15, tol_res=1e-15)
         else:
             kw.update(max_iter_hyd=100, max_iter_therm=100, max_iter_bidirect=100)
         good, err = concrete_pipeflow(net, **kw)
+        _restore_supply(net, cut)
         numbers = 0
         for key in net.keys():
             if isinstance(key, str) and key.startswith("res_") and hasattr(net[key], "columns"):
                 numbers += int(np.sum(~np.isnan(net[key].values.astype(float))))
+        if ok == "C" and good:
+            badl.append("call %d without any supply returned normally" % i)
         if not good:
             if net.converged:
                 badl.append("call %d failed, net.converged True" % i)
@@ -440,27 +483,196 @@ def replay_guard(rs):
     return got != want, {"got": got}
 
 
+# ---- layout: what the stage functions hand to the driver ---------------------------------------------------------
+TOL_KIND = {"mdot": "tol_m", "p": "tol_p", "mdotslack": "tol_m", "tout": "tol_T", "t": "tol_T"}
+
+
+def layout_worker(job):
+    """The driver proof above assumes that the stage function returns one (new, old) pair per solver variable, in the
+    order of solver_vars / tols / pit_names.  Here the *real* stage functions run symbolically on a real net and that
+    contract is discharged: (a) as many pairs as solver variables (the driver silently ignores surplus pairs), (b) pair i
+    is the pit column that finalize_iteration restores for variable i, (c) tolerance i is the option of that variable's
+    kind, (d) every unknown updated by the linear solves of the call occurs in a checked pair."""
+    import pandapipes as pp
+    from svx.sym import free_vars
+    spec, mode = job["spec"], job["pfmode"]
+    patched, ass = H.install()
+    is_gas = spec["fluid"] != "water"
+    calls = []
+    nrw = pf.newton_raphson
+
+    def rec_nr(net, funct, md, solver_vars, tols, pit_names, iter_name):
+        entry = {"mode": md, "solver_vars": list(solver_vars), "tols": list(tols), "pit_names": list(pit_names), "results": None,
+                 "n0": len(stubs.CTX.systems)}
+
+        def f2(net_):
+            res, residual, filt = funct(net_)
+            cols = []
+            for var, pit, f in zip(solver_vars, pit_names, filt):
+                col = vars(pf).get(var.upper() + "INIT")
+                if col is None:
+                    cols.append(None)
+                    continue
+                arr = net_["_active_pit"][pit][:, col] if f is None else net_["_active_pit"][pit][f, col]
+                cols.append(np.array(arr, dtype=object))
+            entry.update(results=[np.array(r, dtype=object) for r in res], cols=cols, n1=len(stubs.CTX.systems))
+            return res, residual, filt
+        calls.append(entry)
+        return nrw(net, f2, md, solver_vars, tols, pit_names, iter_name)
+
+    def run():
+        calls.clear()
+        net, names = nets.build(spec, nets.sym_valuer(), fluid=stubs.make_sym_fluid(is_gas))
+        pf.newton_raphson = rec_nr
+        try:
+            pp.pipeflow(net, mode=mode, use_numba=False, tol_p=real("tol_p"), tol_m=real("tol_m"), tol_T=real("tol_T"),
+                        tol_res=real("tol_res"))
+        finally:
+            pf.newton_raphson = nrw
+        return list(calls), list(stubs.CTX.systems)
+    _, names = nets.build(spec, nets.sym_valuer())
+    A = list(ass) + nets.admissibility(names) + [z3.Real(t) > 0 for t in ("tol_p", "tol_m", "tol_T", "tol_res")]
+    H.CTX.fixed = set()
+    ex = H.explore_witnesses(run, [H.Witness(dict(names, tol_p=1e-4, tol_m=1e-4, tol_T=1e-2, tol_res=1e-3))], A)
+    p = ex.paths[0]
+    if p.exc is not None:
+        return finish_worker(job, ex, [], errors=[] if expected_exc(p.exc) else ["raised %r" % (p.exc,)])
+    viol = []
+    hy = list(A) + p.facts + p.path + p.defined + p.assumed
+
+    def bad(what, fp):
+        viol.append({"fingerprint": "C05/layout/" + fp, "detail": {"job": job["name"], "what": what},
+                     "replay": {"kind": "layout", "spec": spec, "pfmode": mode, "values": {}}})
+
+    def eq(lab, a, b, fp):
+        r, m, how = D.check(hy, _t(a) == _t(b), sample="%s %s" % (job["name"], lab), timeout_ms=4000,
+                            witness=(p.witness, H.witness_funcs()))
+        if r == 'sat':
+            bad(lab, fp)
+        elif r == 'unknown':
+            job.setdefault("_inconclusive", []).append(lab)
+    cl, systems = p.value
+    for ci, c in enumerate(cl):
+        if c["results"] is None:
+            continue
+        sv, res = c["solver_vars"], c["results"]
+        tag = "%s call %d" % (c["mode"], ci)
+        D.STATS.obligations += 1
+        if len(res) == 2 * len(sv):
+            D.STATS.rewriter += 1
+        else:
+            bad("%s: stage function returns %d (new, old) pairs, the driver checks %d solver variables %s" %
+                (tag, len(res) // 2, len(sv), sv), "pairs")
+        for i, var in enumerate(sv):
+            col = c["cols"][i] if i < len(c["cols"]) else None
+            D.STATS.obligations += 1
+            if col is None or 2 * i >= len(res) or len(col) != len(res[2 * i]):
+                bad("%s: pair %d handed to the driver as %r is not the pit column %sINIT (%s vs %s entries)" %
+                    (tag, i, var, var.upper(), "-" if col is None else len(col), len(res[2 * i]) if 2 * i < len(res) else "-"),
+                    "column")
+            else:
+                D.STATS.rewriter += 1
+                for k in range(len(col)):
+                    eq("%s: pair %d (%s) entry %d is the pit column %sINIT" % (tag, i, var, k, var.upper()), res[2 * i][k], col[k],
+                       "column")
+            want = TOL_KIND.get(var.lower())
+            if want is None:
+                bad("%s: unknown solver variable %r" % (tag, var), "tolerance")
+            else:
+                eq("%s: tolerance of %s is %s" % (tag, var, want), c["tols"][i], real(want), "tolerance")
+        # (d) every update unknown of the call occurs in a checked pair
+        checked = set()
+        for i in range(min(len(sv), len(res) // 2)):
+            for a, b in zip(res[2 * i], res[2 * i + 1]):
+                if isinstance(a, Sym) or isinstance(b, Sym):
+                    checked |= set(free_vars(z3.simplify(_t(a) - _t(b))))
+        for s_ in systems[c["n0"]:c.get("n1", c["n0"])]:
+            for xn in s_.get("xnames", []):
+                D.STATS.obligations += 1
+                if xn in checked:
+                    D.STATS.rewriter += 1
+                else:
+                    bad("%s: the change of unknown %s is not among the pairs the driver compares with a tolerance" % (tag, xn),
+                        "coverage")
+    return finish_worker(job, ex, viol)
+
+
+def replay_layout(rs):
+    """real code, instrumented stage functions: a run that returns normally although the last change of some unknown
+    exceeds the tolerance of its kind (tolerance grid; the kinds follow the documented return order of the stage functions:
+    hydraulics [mdot, p, mdotslack], thermal [Tout, T])"""
+    import pandapipes as pp
+    spec, mode = rs["spec"], rs["pfmode"]
+    hist = []
+    names = {"hydraulics": "solve_hydraulics", "heat": "solve_temperature", "bidirectional": "solve_bidirectional"}
+    kinds = {"solve_hydraulics": ["tol_m", "tol_p", "tol_m"], "solve_temperature": ["tol_T", "tol_T"],
+             "solve_bidirectional": ["tol_m", "tol_p", "tol_m", "tol_T", "tol_T"]}
+    saved = {n: getattr(pf, n) for n in kinds}
+
+    def wrap(n):
+        orig = saved[n]
+
+        def w(net):
+            res, residual, filt = orig(net)
+            ch = []
+            for i in range(len(res) // 2):
+                a, b = np.asarray(res[2 * i], dtype=float), np.asarray(res[2 * i + 1], dtype=float)
+                ch.append(float(np.max(np.abs(a - b))) if len(a) else 0.0)
+            hist.append((n, ch))
+            return res, residual, filt
+        return w
+    found = None
+    try:
+        for n in (["solve_bidirectional"] if mode == "bidirectional" else ["solve_hydraulics", "solve_temperature"]):
+            setattr(pf, n, wrap(n))
+        for method in ("constant", "automatic"):
+            for tol_T in (1e-2, 1e-5, 1e-8, 1e-10):
+                for tol_m in (1e-4, 1e-8, 1e-11):
+                    net, _ = nets.build(spec, nets.concrete_valuer(rs.get("values", {})))
+                    hist.clear()
+                    tols = {"tol_T": tol_T, "tol_m": tol_m, "tol_p": 1e-4}
+                    try:
+                        pp.pipeflow(net, mode=mode, use_numba=False, nonlinear_method=method, tol_res=1e9, max_iter_hyd=100,
+                                    max_iter_therm=100, max_iter_bidirect=100, **tols)
+                    except Exception:   # noqa
+                        continue
+                    last = {}
+                    for n, ch in hist:
+                        last[n] = ch
+                    for n, ch in last.items():
+                        for k, c in zip(kinds[n], ch):
+                            if c > tols[k] and found is None:
+                                found = {"method": method, "tolerances": tols, "stage": n, "last changes": ch,
+                                         "kinds": kinds[n]}
+    finally:
+        for n, f in saved.items():
+            setattr(pf, n, f)
+    return found is not None, found or {"no run found": True}
+
+
 def jobs(tier, seed):
     out = []
-    for nv in (2, 3, 4):
+    for nv in (2, 3, 5):
         svars = SOLVER_VARS[nv]
         for method in ("constant", "automatic"):
             pats = [{}] + [{"res": True}] + [{"e1_%s" % svars[0]: True}] + [{"e0_%s" % svars[-1]: True}]
             if tier == "thorough":
                 pats += [{"e1_%s" % v: True} for v in svars[1:]] + [{"e0_%s" % v: True, "res": True} for v in svars[:1]]
             for pi, pat in enumerate(pats):
-                if nv == 4 and method == "automatic" and pi > 1 and tier == "quick":
+                if nv == 5 and method == "automatic" and pi > 1 and tier == "quick":
                     continue
                 out.append({"name": "verdict/%dvars/%s/nan%d" % (nv, method, pi), "kind": "verdict", "nvars": nv, "method": method,
                             "nan": pat})
-    for nv, mi in ((2, 3), (3, 2), (4, 2)) if tier == "quick" else ((2, 4), (3, 3), (4, 2)):
+    for nv, mi in ((2, 3), (3, 2), (5, 2)) if tier == "quick" else ((2, 4), (3, 3), (5, 2)):
         for method in ("constant", "automatic"):
             if nv >= 3 and method == "automatic" and tier == "quick":
-                mi_ = 1 if nv == 4 else 2
+                mi_ = 1 if nv == 5 else 2
             else:
                 mi_ = mi
             out.append({"name": "driver/%dvars/%s/max_iter%d" % (nv, method, mi_), "kind": "driver", "nvars": nv, "method": method,
                         "max_iter": mi_})
+            out.append({"name": "driver/%dvars/%s/max_iter%d/nan_residual" % (nv, method, min(mi_, 2)), "kind": "driver", "nvars": nv,
+                        "method": method, "max_iter": min(mi_, 2), "resid_nan": True})
     L = 3 if tier == "quick" else 4
     for s, modes in ((catalog.w_line3(), ["hydraulics"]), (catalog.w_circ_loop(), ["sequential", "bidirectional", "hydraulics"]),
                      (catalog.g_line3(), ["hydraulics"])):
@@ -471,16 +683,28 @@ def jobs(tier, seed):
                         continue
                     out.append({"name": "api/%s/%s/%s" % (s["name"], mode, "".join("S" if x else "F" for x in seq)), "kind": "api",
                                 "spec": s, "pfmode": mode, "seq": list(seq)})
+            for seq in ([True, "C"], [True, "C", True], ["C", True], [False, "C"], [True, False, "C"]):
+                out.append({"name": "api/%s/%s/%s" % (s["name"], mode, "".join("C" if x == "C" else "S" if x else "F" for x in seq)),
+                            "kind": "api", "spec": s, "pfmode": mode, "seq": list(seq)})
     out.append({"name": "guard/infeed", "kind": "guard"})
+    from checks.c11 import specs as c11_specs
+    lay = [(catalog.w_line3(), ["hydraulics"]), (catalog.g_line3(), ["hydraulics"]),
+           (catalog.w_circ_loop(), ["sequential", "bidirectional"]), (catalog.w_circ_mass(), ["sequential", "bidirectional"])]
+    lay += [(s_, ["bidirectional"]) for s_ in c11_specs() if s_["name"] in ("mf_dt_tr", "mixed")]
+    for s_, modes in lay:
+        for mode in modes:
+            out.append({"name": "layout/%s/%s" % (s_["name"], mode), "kind": "layout", "spec": s_, "pfmode": mode})
     return out
 
 
 def worker(job):
-    return {"verdict": verdict_worker, "driver": driver_worker, "api": api_worker, "guard": guard_worker}[job["kind"]](job)
+    return {"verdict": verdict_worker, "driver": driver_worker, "api": api_worker, "guard": guard_worker,
+            "layout": layout_worker}[job["kind"]](job)
 
 
 def replay(rs):
-    return {"verdict": replay_verdict, "driver": replay_driver, "api": replay_api, "guard": replay_guard}[rs["kind"]](rs)
+    return {"verdict": replay_verdict, "driver": replay_driver, "api": replay_api, "guard": replay_guard,
+            "layout": replay_layout}[rs["kind"]](rs)
 
 
 def main(argv=None):
